@@ -39,11 +39,12 @@ def int_range(sub):
 
 
 def _wide(lim):
-    """Integers of large magnitude with arbitrary low bits (st.integers alone favours small values and range ends)."""
+    """Integers spread over the whole range [-lim, lim] with arbitrary low bits.  st.integers alone favours small
+    magnitudes and the range ends; the drawn value goes through a fixed bijection of 64-bit words (a multiplication by an
+    odd constant), which keeps the case a pure function of the draw and scatters it over the range."""
     if lim < 2 ** 24:
         return st.integers(-lim, lim)
-    return st.tuples(st.integers(1, max(1, lim >> 20) - 1), st.integers(0, 2 ** 20 - 1), st.booleans()).map(
-        lambda t: (-1 if t[2] else 1) * min(lim, (t[0] << 20) | t[1]))
+    return st.integers(0, 2 ** 64 - 1).map(lambda x: ((x * 0x9E3779B97F4A7C15 + 0x7F4A7C15) % (2 ** 64)) % (2 * lim + 1) - lim)
 
 
 def ints_for(sub):
